@@ -109,7 +109,9 @@ class Simulator(BaseSimObj):
         """
         if self.scheduler is None:
             raise TypeError("Add a scheduler before attempting to call" " run().")
-        while not self.event_queue.empty():
+        # A pending recompute with an empty queue means a previous call to run() was
+        # interrupted (e.g. the scheduler raised) in the last period; finish that period.
+        while not self.event_queue.empty() or self._resolve:
             current_events = self.event_queue.get_current_events(self._iteration)
             for e in current_events:
                 self.event_history.append(e)
